@@ -51,8 +51,17 @@ def build_table(path, maxlen):
 
 
 def rand_series(rng, n):
-    kind = rng.integers(5)
-    if kind == 0:
+    kind = rng.integers(8)
+    if kind == 5:        # near ties: neighbours that differ by a few ulps up to 1e-6 relative (but are not equal)
+        x = np.repeat(rng.standard_normal(n), rng.integers(1, 4, size=n))[:n]
+        x = x * (1.0 + rng.choice([0.0, 1e-15, 1e-12, 1e-9, 1e-7, 1e-6], size=n) * rng.choice([-1, 1], size=n))
+    elif kind == 6:      # tiny amplitudes (1e-9 .. 1e-12) and slowly varying crests
+        t = np.arange(n)
+        x = (np.sin(t * rng.uniform(1e-3, 3e-2)) + 2.0) * 10.0 ** rng.uniform(-12, -6)
+    elif kind == 7:      # small wiggle inside a trough / on a crest
+        t = np.arange(n)
+        x = np.sin(2 * np.pi * t / rng.uniform(20, 200)) + 1e-7 * rng.standard_normal(n)
+    elif kind == 0:
         x = rng.standard_normal(n)
     elif kind == 1:      # plateau-rich integers
         x = np.repeat(rng.integers(-3, 4, size=n), rng.integers(1, 5, size=n))[:n].astype(float)
